@@ -23,8 +23,8 @@ Definition rd_read (r : rd) (free : nat) : outcome (bytes * rd) :=
   match ev with
   | Fail => Err E_Io
   | Data n =>
-      let want := Nat.max (N.to_nat n) 1 in
-      let k := Nat.min want (Nat.min free (length (rest r))) in
+      (* = min (max n 1) (min free |rest|), computed in N so that extraction never builds a huge nat *)
+      let k := N.to_nat (N.min (N.max n 1) (N.of_nat (Nat.min free (length (rest r))))) in
       Ok (firstn k (rest r), mkrd (skipn k (rest r)) sch (S (calls r)) (delivered r + k))
   end.
 (* the schedule advances on a failed call as well *)
